@@ -65,7 +65,8 @@ def _compare_helper (self, other, f, rf):
     else: ov = t(other)._value
     return getattr(self._value, f)(ov)
   except Exception:
-    return getattr(other, rf)(self)
+    # Let Python try the reflected operation on the other operand
+    return NotImplemented
 
 
 class _AddrBase (object):
